@@ -20,6 +20,8 @@ func runC13(c *Ctx, r *Report) {
 	r.Rule("C13.R7", "the definition sweep examines every statement: in the loop of DefineMacros that removes definitions from the program, an iteration that deletes the element at the loop index (append(s[:i], s[i+1:]...) or slices.Delete(s, i, i+1)) reaches the next loop test with the index unchanged; advancing it skips the statement that moved into place")
 	r.Rule("C13.R9", "parameters are new bindings: every binding call of extendMacroEnv and extendFunctionEnv on the frame they build is SetNoChecks/CreateOrSet with create == true (Set resolves the name outward first and writes through a Reference)")
 	c.checkParamsAreCreated(r, "C13.R9")
+	r.Rule("C13.R11", "both assignment tokens define macros: eval.isAssign tests the expression's token against ASSIGN and against DEFINE")
+	c.checkMacroDefinitionTokens(r, "C13.R11")
 	r.Rule("C13.R10", "a call that names a macro is always expanded: in the callback of ExpandMacros, on the ok edge of isMacroCall no return hands back the callback's own argument")
 	c.checkMacroCallsAlwaysExpand(r, "C13.R10")
 	r.Rule("C02.R2", "(shared) the expanded program prints and re-parses like the hand-substituted one only if operator printers honour precedence")
